@@ -124,6 +124,7 @@ def c05(rep, tier):
     r_pair.run_argflow(p, rep)
     r_pair.run_range(p, rep)
     r_pair.run_empty_ok(p, rep)
+    r_pair.run_attr_loop(p, rep)
     rep.analysed["config:all"] = {"bodies": len(p.fns)}
 
 
